@@ -1,6 +1,7 @@
 package sim
 
 import (
+	"errors"
 	"fmt"
 	"sort"
 
@@ -10,6 +11,17 @@ import (
 )
 
 const stepBudget = 1 << 20
+
+// ErrCrashed is returned by API helpers when the instance died (crash
+// injection) before the call returned: the caller got no acknowledgement.
+var ErrCrashed = errors.New("sim: the instance crashed before the call returned")
+
+func (inst *Instance) unfinished(what string) error {
+	if inst.Dead || inst.W.S.CrashRequested {
+		return ErrCrashed
+	}
+	return fmt.Errorf("%s did not finish: %v", what, inst.W.S.ParkedSummary())
+}
 
 // RunCall runs fn as an API client of inst. solo=true runs it without
 // interleaving other goroutines (except to free the writer lock); otherwise
@@ -31,7 +43,7 @@ func (inst *Instance) CreateWallet(pass string, bits int, solo bool) (*WalletSta
 	var id, mn string
 	var err error
 	if !inst.RunCall("CreateWallet", solo, func() { id, mn, _, err = inst.WM.CreateWallet(pass, "r", bits) }) {
-		return nil, fmt.Errorf("CreateWallet did not finish")
+		return nil, inst.unfinished("CreateWallet")
 	}
 	if err != nil {
 		return nil, err
@@ -56,7 +68,7 @@ func (inst *Instance) Use(id string, solo bool) (*masswallet.WalletInfo, error) 
 	var wi *masswallet.WalletInfo
 	var err error
 	if !inst.RunCall("UseWallet", solo, func() { wi, err = inst.WM.UseWallet(id) }) {
-		return nil, fmt.Errorf("UseWallet did not finish")
+		return nil, inst.unfinished("UseWallet")
 	}
 	if err == nil {
 		inst.Current = id
@@ -73,7 +85,7 @@ func (inst *Instance) NewAddress(staking bool, solo bool) (string, error) {
 	var addr string
 	var err error
 	if !inst.RunCall("NewAddress", solo, func() { addr, err = inst.WM.NewAddress(uint16(cls)) }) {
-		return "", fmt.Errorf("NewAddress did not finish")
+		return "", inst.unfinished("NewAddress")
 	}
 	if err != nil {
 		return "", err
@@ -133,7 +145,7 @@ func (inst *Instance) Observe(id string) (*Obs, error) {
 		synced, e4 = inst.WM.SyncedTo()
 	})
 	if !ok {
-		return nil, fmt.Errorf("observation calls did not finish")
+		return nil, inst.unfinished("observation calls")
 	}
 	for _, e := range []error{e1, e2, e3, e4} {
 		if e != nil {
@@ -356,39 +368,103 @@ func (w *World) AllDelivered() bool {
 	return true
 }
 
-// CheckLedger compares every harness-known ready wallet of inst with the
-// ledger model of the current best chain. class prefixes the violation class.
-func (w *World) CheckLedger(inst *Instance, class string) {
+// decodeStd returns the holder script hash of a standard address string.
+func (w *World) decodeStd(addr string) ([32]byte, bool) {
+	var h [32]byte
+	a, err := massutil.DecodeAddress(addr, w.Params)
+	if err != nil || len(a.ScriptAddress()) != 32 {
+		return h, false
+	}
+	copy(h[:], a.ScriptAddress())
+	return h, true
+}
+
+// hdIndexOf finds the key-chain index of a holder hash among the first n
+// external addresses of the independent derivation (-1 if none).
+func hdIndexOf(hd *HDWallet, h [32]byte, n uint32) int {
+	for i := uint32(0); i < n; i++ {
+		a := hd.Addr(i)
+		if a != nil && string(a.ScriptHash) == string(h[:]) {
+			return int(i)
+		}
+	}
+	return -1
+}
+
+// CheckWallet compares one wallet of inst with the ledger model of the
+// current best chain. The owned address set is what the wallet itself reports
+// (it must contain every address the harness saw issued and only addresses
+// of the wallet's own key chain). class prefixes the violation class.
+func (w *World) CheckWallet(inst *Instance, ws *WalletState, class string) *Ledger {
+	id := ws.ID
 	chain := w.Node.BestChain()
-	for _, id := range inst.SortedWalletIDs() {
-		ws := inst.Wallets[id]
-		own, addrOf, addrs := w.owned(ws)
-		l := ComputeLedger(chain, own)
-		want := l.ModelObs(id, addrOf, addrs)
-		got, err := inst.Observe(id)
-		if err != nil {
-			w.Violate(class+".observe-error", "wallet %s: %v", id, err)
+	got, err := inst.Observe(id)
+	if err != nil {
+		w.Violate(class+".observe-error", "wallet %s: %v", id, err)
+		return nil
+	}
+	own := map[[32]byte]bool{}
+	addrOf := map[[32]byte]string{}
+	var addrs []string
+	maxIdx := uint32(len(ws.Issued)) + inst.Cfg.Wallet.Settings.AddressGapLimit + 40
+	for _, ab := range got.AddrBal {
+		h, ok := w.decodeStd(ab.Addr)
+		if !ok {
+			w.Violate(class+".bad-address", "wallet %s reports undecodable address %q", id, ab.Addr)
 			continue
 		}
-		if d := DiffObs(got, want); d != "" {
-			w.Violate(class+".ledger-mismatch", "wallet %s at height %d: %s", id, l.Tip, d)
-			if w.LogOn {
-				es, _ := DumpDB(inst.DB)
-				for _, e := range es {
-					if e.Bucket[0] != 'k' {
-						w.Logf("db %s", e.String())
-					}
+		if own[h] {
+			w.Violate(class+".duplicate-address", "wallet %s reports address %s twice", id, ab.Addr)
+			continue
+		}
+		own[h] = true
+		addrOf[h] = ab.Addr
+		addrs = append(addrs, ab.Addr)
+		if hdIndexOf(ws.HD, h, maxIdx) < 0 {
+			w.Violate(class+".foreign-address", "wallet %s reports address %s which is not among the first %d addresses of its key chain", id, ab.Addr, maxIdx)
+		}
+	}
+	for _, ia := range ws.Issued {
+		a := ws.HD.Addr(ia.Index)
+		var h [32]byte
+		copy(h[:], a.ScriptHash)
+		if !own[h] {
+			w.Violate(class+".address-lost", "wallet %s no longer reports issued address index %d (%s)", id, ia.Index, ia.Addr)
+		}
+	}
+	l := ComputeLedger(chain, own)
+	want := l.ModelObs(id, addrOf, addrs)
+	if d := DiffObs(got, want); d != "" {
+		w.Violate(class+".ledger-mismatch", "wallet %s at height %d: %s", id, l.Tip, d)
+		if w.LogOn {
+			es, _ := DumpDB(inst.DB)
+			for _, e := range es {
+				if e.Bucket[0] != 'k' {
+					w.Logf("db %s", e.String())
 				}
-				for _, b := range chain {
-					for i, tx := range b.Msg.Transactions {
-						w.Logf("chain h=%d blk=%s tx%d=%s", b.Height, b.Hash.String()[:8], i, tx.TxHash())
-					}
+			}
+			for _, b := range chain {
+				for i, tx := range b.Msg.Transactions {
+					w.Logf("chain h=%d blk=%s tx%d=%s", b.Height, b.Hash.String()[:8], i, tx.TxHash())
 				}
 			}
 		}
-		w.Stat("check.ledger")
-		if len(l.Coins) > 0 {
-			w.Stat("check.ledger.nonempty")
+	}
+	w.Stat("check.ledger")
+	if len(l.Coins) > 0 {
+		w.Stat("check.ledger.nonempty")
+	}
+	return l
+}
+
+// CheckLedger compares every harness-known wallet of inst that is not being
+// removed with the ledger model.
+func (w *World) CheckLedger(inst *Instance, class string) {
+	for _, id := range inst.SortedWalletIDs() {
+		ws := inst.Wallets[id]
+		if ws.Removing || ws.Uncertain {
+			continue
 		}
+		w.CheckWallet(inst, ws, class)
 	}
 }
